@@ -40,6 +40,10 @@ where
     if !normalization.is_normal() || !normalization.is_sign_positive() {
         return Err(());
     }
+    if probabilities.iter().any(|probability| !(*probability >= F::zero())) {
+        // Negative or NaN entries (would lead to a non-monotonic CDF).
+        return Err(());
+    }
     let scale = AsPrimitive::<F>::as_(free_weight.as_()) / normalization;
 
     let mut cumulative_float = F::zero();
